@@ -691,7 +691,7 @@ func run(c *core.Ctx) {
 	// the library (and the oracle) allocate multi-kilobyte mantissas at a high
 	// rate; a lazier collector roughly halves the wall time
 	defer debug.SetGCPercent(debug.SetGCPercent(400))
-	n := c.N(1600, 100000)
+	n := c.N(1200, 60000)
 	evs := make([]*evaluated, n)
 	c.Parallel("case", n, 0, func(i int, r *core.Rand) {
 		evs[i] = evalCase(c, genCase(r, i, c.Quick()), r, i)
